@@ -118,7 +118,7 @@ func RunCampaign(run *core.Run, scs []*Scenario, o CampaignOpts) *Summary {
 		}
 	}
 	// run in chunks so that the budget can stop the campaign between chunks
-	chunk := 400
+	chunk := 128
 	for len(todo) > 0 {
 		if o.Budget > 0 && time.Since(start) > o.Budget {
 			sum.Deadline = true
